@@ -1,0 +1,150 @@
+//go:build verif
+
+package sortints
+
+// Contracts for the verification machinery in /verif (comment-only file; no code).
+// Syntax: /verif/DESIGN.md section 2.2.
+
+//@ pred sorted(s []int) = forall i in 0..len(s): forall j in i+1..len(s): s[i] < s[j]
+//@ pred in(x int, s []int) = exists k in 0..len(s): s[k] == x
+//@ pred subset(s []int, t []int) = forall k in 0..len(s): in(s[k], t)
+
+// |a[0..p) ∩ b| for a duplicate-free a
+//@ spec cntIn(a []int, p int, b []int) int = (p <= 0 ? 0 : cntIn(a, p-1, b) + (in(a[p-1], b) ? 1 : 0))
+
+//@ lemma cntTail(a []int, b []int, i int, n int)
+//@   requires 0 <= i && i <= n && n <= len(a)
+//@   requires forall p in i..n: !in(a[p], b)
+//@   ensures cntIn(a, n, b) == cntIn(a, i, b)
+//@   by induction n - i
+
+//@ func IntersectionSize
+//@   requires sorted(a) && sorted(b)
+//@   ensures 0 <= result && result <= len(a) && result <= len(b)
+//@   ensures result == cntIn(a, len(a), b)
+//@   opt lemmas=cntTail
+//@   loop 1
+//@     invariant 0 <= i && i <= len(a) && 0 <= j && j <= len(b)
+//@     invariant 0 <= intersection && intersection <= i && intersection <= j
+//@     invariant intersection == cntIn(a, i, b)
+//@     invariant forall p in 0..i: j < len(b) ==> a[p] < b[j]
+//@     invariant forall q in 0..j: i < len(a) ==> b[q] < a[i]
+//@     decreases len(a) - i + len(b) - j
+
+//@ func Intersection
+//@   requires sorted(a) && sorted(b)
+//@   ensures sorted(result) && fresh(result)
+//@   ensures forall k in 0..len(result): in(result[k], a) && in(result[k], b)
+//@   ensures forall p in 0..len(a): in(a[p], b) ==> in(a[p], result)
+//@   loop 1
+//@     invariant 0 <= i && i <= len(a) && 0 <= j && j <= len(b)
+//@     invariant sorted(r)
+//@     invariant forall k in 0..len(r): in(r[k], a) && in(r[k], b)
+//@     invariant forall k in 0..len(r): (i < len(a) ==> r[k] < a[i]) && (j < len(b) ==> r[k] < b[j])
+//@     invariant forall p in 0..i: in(a[p], b) ==> in(a[p], r)
+//@     invariant forall q in 0..j: in(b[q], a) ==> in(b[q], r)
+//@     invariant forall p in 0..i: j < len(b) ==> a[p] < b[j]
+//@     invariant forall q in 0..j: i < len(a) ==> b[q] < a[i]
+//@     decreases len(a) - i + len(b) - j
+
+//@ func Union
+//@   requires sorted(a) && sorted(b)
+//@   ensures sorted(result) && fresh(result)
+//@   ensures forall k in 0..len(result): in(result[k], a) || in(result[k], b)
+//@   ensures subset(a, result) && subset(b, result)
+//@   loop 1
+//@     invariant 0 <= i && i <= len(a) && 0 <= j && j <= len(b)
+//@     invariant sorted(r)
+//@     invariant forall k in 0..len(r): in(r[k], a) || in(r[k], b)
+//@     invariant forall k in 0..len(r): (i < len(a) ==> r[k] < a[i]) && (j < len(b) ==> r[k] < b[j])
+//@     invariant forall p in 0..i: in(a[p], r)
+//@     invariant forall q in 0..j: in(b[q], r)
+//@     decreases len(a) - i + len(b) - j
+
+//@ func SetMinus
+//@   requires sorted(a) && sorted(b)
+//@   ensures sorted(result) && fresh(result)
+//@   ensures forall k in 0..len(result): in(result[k], a) && !in(result[k], b)
+//@   ensures forall p in 0..len(a): !in(a[p], b) ==> in(a[p], result)
+//@   loop 1
+//@     invariant 0 <= i && i <= len(a) && 0 <= j && j <= len(b)
+//@     invariant sorted(r)
+//@     invariant forall k in 0..len(r): in(r[k], a) && !in(r[k], b)
+//@     invariant forall k in 0..len(r): i < len(a) ==> r[k] < a[i]
+//@     invariant forall p in 0..i: !in(a[p], b) ==> in(a[p], r)
+//@     invariant forall p in 0..i: j < len(b) ==> a[p] < b[j]
+//@     invariant forall q in 0..j: i < len(a) ==> b[q] < a[i]
+//@     decreases len(a) - i + len(b) - j
+
+//@ func XOR
+//@   requires sorted(a) && sorted(b)
+//@   ensures sorted(result) && fresh(result)
+//@   ensures forall k in 0..len(result): in(result[k], a) || in(result[k], b)
+//@   ensures forall k in 0..len(result): !(in(result[k], a) && in(result[k], b))
+//@   ensures forall p in 0..len(a): !in(a[p], b) ==> in(a[p], result)
+//@   ensures forall q in 0..len(b): !in(b[q], a) ==> in(b[q], result)
+//@   loop 1
+//@     invariant 0 <= i && i <= len(a) && 0 <= j && j <= len(b)
+//@     invariant sorted(xor)
+//@     invariant forall k in 0..len(xor): in(xor[k], a) || in(xor[k], b)
+//@     invariant forall k in 0..len(xor): !(in(xor[k], a) && in(xor[k], b))
+//@     invariant forall k in 0..len(xor): (i < len(a) ==> xor[k] < a[i]) && (j < len(b) ==> xor[k] < b[j])
+//@     invariant forall p in 0..i: !in(a[p], b) ==> in(a[p], xor)
+//@     invariant forall q in 0..j: !in(b[q], a) ==> in(b[q], xor)
+//@     invariant forall p in 0..i: j < len(b) ==> a[p] < b[j]
+//@     invariant forall q in 0..j: i < len(a) ==> b[q] < a[i]
+//@     decreases len(a) - i + len(b) - j
+
+//@ func Complement
+//@   requires sorted(a)
+//@   ensures sorted(result) && fresh(result)
+//@   ensures forall k in 0..len(result): 0 <= result[k] && result[k] < n && !in(result[k], a)
+//@   ensures forall x in 0..n: !in(x, a) ==> in(x, result)
+//@   loop 1
+//@     invariant 0 <= i && (i <= n || n < 0) && 0 <= aIndex && aIndex <= len(a)
+//@     invariant sorted(b)
+//@     invariant forall k in 0..len(b): 0 <= b[k] && b[k] < i && !in(b[k], a)
+//@     invariant forall x in 0..i: !in(x, a) ==> in(x, b)
+//@     invariant forall p in 0..aIndex: a[p] < i
+//@     decreases n - i + len(a) - aIndex
+//@   loop 2
+//@     invariant 0 <= i && (i <= n || n < 0) && 0 <= aIndex && aIndex <= len(a)
+//@     invariant sorted(b)
+//@     invariant forall k in 0..len(b): 0 <= b[k] && b[k] < i && !in(b[k], a)
+//@     invariant forall x in 0..i: !in(x, a) ==> in(x, b)
+//@     invariant forall p in 0..len(a): a[p] < i || i >= n
+//@     decreases n - i
+
+//@ func ContainsSingle
+//@   requires sorted(a)
+//@   ensures result <==> in(x, a)
+
+//@ func ContainsSorted
+//@   requires sorted(a) && sorted(b)
+//@   ensures result <==> subset(b, a)
+//@   loop 1
+//@     invariant 0 <= i && i <= len(a) && 0 <= j && j <= len(b)
+//@     invariant forall q in 0..j: in(b[q], a)
+//@     invariant forall p in 0..i: j < len(b) ==> a[p] < b[j]
+//@     decreases len(a) - i + len(b) - j
+
+//@ func NewSortedInts
+//@   ensures sorted(result) && fresh(result)
+//@   ensures subset(result, x) && subset(x, result)
+//@   loop 1
+//@     invariant 1 <= i && (i <= len(tmp) || (len(tmp) == 0 && i == 1))
+//@     invariant 0 <= numberOfRepeats && numberOfRepeats < i
+//@     invariant sameslice(tmp, pre(tmp))
+//@     invariant forall k in i-numberOfRepeats..len(tmp): tmp[k] == pre(tmp)[k]
+//@     invariant sorted(tmp[:i-numberOfRepeats]) || len(tmp) == 0
+//@     invariant len(tmp) > 0 ==> tmp[i-numberOfRepeats-1] == pre(tmp)[i-1]
+//@     invariant forall k in 0..i-numberOfRepeats: exists p in 0..i: len(tmp) > 0 ==> tmp[k] == pre(tmp)[p]
+//@     invariant forall p in 0..i: exists k in 0..i-numberOfRepeats: len(tmp) > 0 ==> tmp[k] == pre(tmp)[p]
+//@     decreases len(tmp) - i
+
+//@ func (*SortedInts).Remove
+//@   requires sorted(*s)
+//@   modifies s, *s
+//@   ensures sorted(*s)
+//@   ensures forall k in 0..len(*s): (*s)[k] != x && in((*s)[k], old(*s))
+//@   ensures forall p in 0..len(old(*s)): old(*s)[p] != x ==> in(old(*s)[p], *s)
